@@ -715,6 +715,14 @@ C18_TEXTS += [
 ]
 
 
+C18_TEXTS += [
+    # comparisons convert the VALUE, not a ratio of units: kelvin against degrees Celsius / Fahrenheit, watts against dBm
+    ("comparisons-across-units-with-an-offset", 'T float = 300 K\nroom float = 20 Cel\nwarm bool = ("{?T} > 20 Cel")\nmild bool = ("{?T} >= 20 Cel && {?T} <= 30 Cel")\ncold bool = ("{?T} < 0 Cel")\n'
+     'same bool = ("{?room} == 68 degF")\nnotsame bool = ("{?room} == 20 K")\nfr bool = ("{?room} > 273 K && {?room} < 294 K")', False,
+     [("warm", True), ("mild", True), ("cold", False), ("same", True), ("notsame", False), ("fr", True)], None),
+]
+
+
 @contract(DIPC + ".parse", ["C18"], name="DIP.parse[expressions]")
 def _(c):
     c.bound = f"{len(C18_TEXTS)} texts with numerical / logical expressions over referenced nodes; the values of the referenced nodes are symbolic"
